@@ -172,6 +172,8 @@ def versionPayload (v : VersionMsg) : Bytes :=
   (if v.nVersion ≥ 70001 then leBytes 1 v.fRelay else [])
 
 /-- `headers`: each 80-byte header is followed by a transaction count, always 0 -/
+-- (`ping`/`pong` always carry the 8-byte nonce: the library's PROTO_VERSION 60002 is above BIP31's
+--  60000 and its classes have no nonce-less form.)
 def headerEntry (h : Header) : Bytes := Wire.header h ++ compactSize 0
 
 def payload : Msg → Bytes
